@@ -402,6 +402,8 @@ pub fn mutations() -> Vec<Mutation> {
         Mutation { name: "rename-within-dir", targets: vec!["/lower.txt"], dirs: vec!["/"] },
         Mutation { name: "move-across-dirs", targets: vec!["/UPPER.txt"], dirs: vec!["/Nested Dir"] },
         Mutation { name: "set-timestamps", targets: vec!["/PLAIN.TXT"], dirs: vec![] },
+        // write until the (foreign, zero-padded) volume is full: must stop with NotEnoughSpace with every cluster used
+        Mutation { name: "fill-volume", targets: vec![], dirs: vec!["/"] },
     ]
 }
 
@@ -442,6 +444,26 @@ fn apply(fs: &sess::Fs, m: &Mutation, cs: usize) -> Result<(), String> {
             f.set_modified(dt);
             f.set_created(dt);
             f.flush().map_err(e)?;
+        }
+        "fill-volume" => {
+            let mut f = root.create_file("FILL.BIN").map_err(e)?;
+            let chunk = pattern(9, cs);
+            let mut n = 0u32;
+            loop {
+                match f.write_all(&chunk) {
+                    Ok(()) => n += 1,
+                    Err(fatfs::Error::NotEnoughSpace) => break,
+                    Err(x) => return Err(format!("write {n}: {:?}", sess::ek(x))),
+                }
+                if n > 64 {
+                    return Err(format!("{n} clusters written to a volume with at most 9 free clusters"));
+                }
+            }
+            f.flush().map_err(e)?;
+            let free = fs.stats().map_err(e)?.free_clusters();
+            if free != 0 {
+                return Err(format!("NotEnoughSpace after {n} clusters but {free} clusters are reported free"));
+            }
         }
         _ => unreachable!(),
     }
@@ -760,7 +782,7 @@ pub fn run(tier: &str) -> i32 {
         "volumes_skipped_by_deadline": ncap,
         "mutations_per_volume": muts.iter().map(|m| m.name).collect::<Vec<_>>(),
         "explanation": "states = foreign volumes in the (tier's) product grid, each an initial state built by the independent builder with its ground truth; transitions = 1 read session + 10 single mutations from every initial state (depth-1 exploration), all executed on the real crate; read: names, short names, UCS-2 units, attributes, raw timestamps, sizes, contents and label vs the builder's ground truth; write: byte-level diff against the pre-image confined to the target's slots / free slots / its FAT entries and clusters / clusters free before / status byte / fs-info, no new structural finding, every other file intact",
-        "grid": "width {12,16,32} x (sector,cluster) {512x1, 512x8, 4096x1, 4096x8 (FAT12); 512x1, 512x8, 4096x1 (FAT16); 512x1 (FAT32)} x FAT copies {1,2,3} x (FAT32: mirrored / mirrored with a stale active-copy number / each active copy, inactive copies scribbled) x FAT32 top nibble {0,0xA} x end-of-chain {lowest,highest} x chain layout {contiguous,reversed,interleaved,through-last-cluster} x status {clean,dirty}; quick tier = a quarter of the grid",
+        "grid": "width {12,16,32} x (sector,cluster) {512x1, 512x8, 4096x1, 4096x8 (FAT12); 512x1, 512x8, 4096x1 (FAT16); 512x1 (FAT32)} x FAT copies {1,2,3} x (FAT32: mirrored / mirrored with a stale active-copy number / each active copy, inactive copies scribbled) x FAT32 top nibble {0,0xA} x end-of-chain {lowest,highest} x chain layout {contiguous,reversed,interleaved,through-last-cluster} x status {clean,dirty}; 11 mutations incl. writing until the volume is full; quick tier = a quarter of the grid",
         "technique": "exhaustive product grid of builder-made foreign volumes as initial states, depth-1 exploration on the real crate, independent decoder + byte-level diff oracle",
     });
     rep.assumptions = vec!["cluster sizes / copy counts outside the grid are not covered; FAT32 with large clusters is left out because the builder keeps flat images in memory".into()];
